@@ -5,4 +5,4 @@ Extraction "c11_model.ml" env_in_token expand_env_once expand_env need_expand_br
   brace_getgroup expand_brace expand_brace_range expand_home needs_globbing expand_glob should_do_dollar
   subst_dollar subst_dot do_command_substitution do_expansion_log do_expansion tokens_to_line
   Expand.is_arithmetic parse_line range_list find_range dot_split find_dollar
-  render_pieces den_pieces wf_pieces count_refs gate_ok render_term den_term wf_term range_ref.
+  render_pieces den_pieces wf_pieces count_refs gate_ok gate_ok_dq render_term den_term wf_term range_ref.
